@@ -29,6 +29,7 @@ ASSUMPTIONS = ["faults occur only at the enumerated points", "MemoryFS/NativeOSF
 MONITORS = ["fault_free_control", "body_exception", "unserializable", "unencodable", "fs_call_fault", "line_failpoint", "line_failpoint_loading"]
 REQUIRED = ["noop_body_with_backup_requested", "body_Chained", "stale_backup_of_same_size_present", "output_is_input_under_another_spelling", "body_UnicodeEncodeError", "backup_after_inplace_chart_edit", "body_KeyboardInterrupt", "body_SystemExit", "body_CancelMutation", "body_StopIteration", "body_GeneratorExit",
             "unencodable_utf-8", "unencodable_cp1252", "unencodable_cp932", "unencodable_cp949", "fault_open_w_backup",
+            "unencodable_object_in_key", "unencodable_object_in_chartkey", "unencodable_object_in_extradata", "unencodable_object_in_notes",
             "fault_open_w_output", "fault_write_backup", "fault_write_output", "fault_close", "partial_write",
             "backup_carried_disjunction", "ssc_chart_without_notes", "preexisting_output_file", "surrogate_on_utf8_inplace"]
 
@@ -141,6 +142,12 @@ def enumerate_faults(base, n_props, n_charts, control_trace, line_events, line0_
             faults.append({"class": kind, "where": "prop", "index": i})
         for i in range(n_charts):
             faults.append({"class": kind, "where": "chart", "index": i})
+        # the same bad object where it is not a property VALUE: a property key, a chart's key (SSC) or extra
+        # components (SM), the note data
+        faults.append({"class": kind, "where": "key", "index": 0})
+        for i in range(n_charts):
+            faults.append({"class": kind, "where": "chartkey" if base["ext"] == "ssc" else "extradata", "index": i})
+            faults.append({"class": kind, "where": "notes", "index": i})
     if base["ext"] == "ssc":
         for i in range(n_charts):
             faults.append({"class": "chart_without_notes", "where": "chart", "index": i})
@@ -318,6 +325,20 @@ def plant(s, fault, base):
                 if k in c:
                     del c[k]
         return
+    if where == "key":
+        s[bad if cls == "int" else type(bad)("K" + bad)] = "value under a bad key"
+        return
+    if where in ("chartkey", "extradata", "notes"):
+        c = s.charts[i]
+        if where == "chartkey":
+            c[bad if cls == "int" else type(bad)("K" + bad)] = "value under a bad chart key"
+        elif where == "extradata":
+            c.extradata = ["fine", bad]
+        elif base["ext"] == "sm":
+            c.notes = bad
+        else:
+            c["NOTES"] = bad
+        return
     if where == "prop":
         keys = list(s.keys())
         if i < len(keys):
@@ -434,6 +455,8 @@ def judge(ctx, base, fault, r, cls, one):
 
     if fc in ("int", "badreplace", "chart_without_notes", "unencodable"):
         ctx.mon("unencodable" if fc == "unencodable" else "unserializable")
+        if fault["where"] in ("key", "chartkey", "extradata", "notes") and r["raised"] is not None:
+            ctx.feat(f"{'unencodable' if fc == 'unencodable' else 'unserializable'}_object_in_{fault['where']}")
         if fc == "unencodable":
             ctx.feat("unencodable_" + r["enc"])
             if fault.get("lone") and not base["output"]:
